@@ -195,6 +195,7 @@ def late_driver_stream(res, rng, n):
 
 
 def main(res, tier, rng, replay):
+    import py4hw
     ok, metas, errors, changed = regenerate()
     for e in errors:
         res.broken.append(('translator', 'py2lean', e))
@@ -213,6 +214,32 @@ def main(res, tier, rng, replay):
         order = r.shuffle(range(len(plan['nodes'])))
         try:
             sysobj, ins, W, leaves = G.build(plan, inst_order=order)
+            if i % 3 == 1:
+                # output-less sequential blocks (stream captures, user-written accumulators) inside the domains: their only state is
+                # internal, and it must hold across disabled edges like every other block's
+                from py4hw.logic.simulation import StreamCapture
+                rs = r.fork('sinks')
+                conts_ = []
+                def walk_(o):
+                    for c in o.children.values():
+                        if type(c).__name__ == 'Logic':
+                            conts_.append(c)
+                            walk_(c)
+                walk_(sysobj)
+                ws_ = D.all_wires(sysobj)
+
+                class Acc(py4hw.Logic):
+                    def __init__(self, parent, name, x):
+                        super().__init__(parent, name)
+                        self.x = self.addIn('x', x)
+                        self.total, self.edges = 0, 0
+
+                    def clock(self):
+                        self.total = (self.total * 3 + self.x.get()) & 0xFFFF
+                        self.edges += 1
+                for k_ in range(min(3, len(conts_) + 1)):
+                    par = rs.choice(conts_) if conts_ else sysobj
+                    (StreamCapture if rs.chance(1, 2) else Acc)(par, f'sink{k_}', rs.choice(ws_))
             sim = sysobj.getSimulator()
         except Exception as e:
             res.hist('build_errors', str(e)[:50])
